@@ -1,7 +1,7 @@
 #!/bin/bash
 # multi-seed soak of every quick check on the unchanged tree (run from a vp snapshot)
 ./setup.sh > soak_setup.log 2>&1; echo "setup rc=$?"
-for s in 2 3 4 5 6; do
+for s in ${SOAK_SEEDS:-7 8 9 10 11}; do
  for i in 01 02 03 04 05 06 07 08 09 10 11 12 13 14 15 16 17 18 19 20; do
   c=C$i; t0=$(date +%s)
   VERIF_SEED=$s timeout 1500 ./check $c quick > soak_${c}_$s.log 2>&1; rc=$?
